@@ -139,3 +139,81 @@ Example C15_vertex_nonvacuous :
                 [1; 9; 2; 8; 6; 5]%N
   = Ok (Some [2; 1]%N, [6; 9; 5; 8]%N).
 Proof. vm_compute. reflexivity. Qed.
+
+(* ===== get_bins: the NoDup hypothesis of the clustering theorems proved from the structure of the loop — imported from Recon/Bins_pins.v ===== *)
+(* C15 -- the hypothesis `forall p, NoDup (bins p)` of the C15_cluster_* theorems, discharged from the
+   STRUCTURE of HoughSpaceAccumulator::get_bins (track_finding.rs:119-151).  This file only pins statements;
+   model: Recon/Bins.v, proofs: Recon/Bins_proofs.v.
+
+   `rho_bin : N -> Z` is the abstract float part: rho_bin 0 is prev_rho_bin before the loop (:130), rho_bin k
+   (1 <= k <= theta_bins) the `rho_bin` of iteration theta_bin = k (:135).  The theorems hold for EVERY such
+   sequence and every theta_bins (the trigonometry, the rounding, the saturating `as i32` play no role).
+   The model is tied to the implementation by the `c15bins` lines of the differential run (harness/phys/src/
+   c15.rs: the real get_bins through verif_hough_bins vs the extracted get_bins_res on the logged sequence). *)
+From Coq Require Import Permutation.
+From AG Require Import Base.Prelude Base.Res Recon.Vec Recon.Cluster Recon.Cluster_proofs
+  Recon.Bins Recon.Bins_proofs.
+
+(* get_bins returns normally: `theta_bin - 1` does not underflow and `bin.try_into().unwrap()` (i32 -> u32) is
+   only reached with bin >= 0, because the range starts at min_bin.max(0) *)
+Theorem C15_get_bins_total :
+  forall (theta_bins : N) (rho_bin : N -> Z),
+  get_bins_res rho_bin theta_bins = Ok (get_bins_model theta_bins rho_bin).
+Proof. exact get_bins_total_lemma. Qed.
+Print Assumptions C15_get_bins_total.
+
+(* no (theta, rho) pair is pushed twice: different iterations push different theta indices, one iteration
+   pushes a strictly increasing range of rho *)
+Theorem C15_get_bins_nodup :
+  forall (theta_bins : N) (rho_bin : N -> Z), NoDup (get_bins_model theta_bins rho_bin).
+Proof. exact get_bins_nodup_lemma. Qed.
+Print Assumptions C15_get_bins_nodup.
+
+Theorem C15_get_bins_theta_range :
+  forall (theta_bins : N) (rho_bin : N -> Z) (t r : N),
+  In (t, r) (get_bins_model theta_bins rho_bin) -> t < theta_bins.
+Proof. exact get_bins_theta_range_lemma. Qed.
+Print Assumptions C15_get_bins_theta_range.
+
+(* exactly which bins are voted for: theta index t < theta_bins, at least one of the two edge values
+   rho_bin t, rho_bin (t+1) non-negative, and rho between them *)
+Theorem C15_get_bins_membership :
+  forall (theta_bins : N) (rho_bin : N -> Z) (t r : N),
+  In (t, r) (get_bins_model theta_bins rho_bin) <->
+  t < theta_bins /\ (0 <= rho_bin t \/ 0 <= rho_bin (t + 1)%N)%Z /\
+  (Z.min (rho_bin t) (rho_bin (t + 1)%N) <= Z.of_N r <= Z.max (rho_bin t) (rho_bin (t + 1)%N))%Z.
+Proof. exact get_bins_in_iff_lemma. Qed.
+Print Assumptions C15_get_bins_membership.
+
+(* the same for the `positive` bin names of Recon/Cluster.v: (theta, rho) |-> 1 + rho * theta_bins + theta *)
+Theorem C15_bins_of_nodup :
+  forall (theta_bins : N) (rho_bin : N -> Z), NoDup (bins_of theta_bins rho_bin).
+Proof. exact bins_of_nodup_lemma. Qed.
+Print Assumptions C15_bins_of_nodup.
+
+(* ---- how the C15 clustering theorems specialise: `bins` := the modelled get_bins with 230 theta bins
+   (reconstruction.rs:63-78) over an arbitrary rho_bin sequence per point; no hypothesis on bins is left ---- *)
+Theorem C15_cluster_pub_bins :
+  forall (rho : point -> N -> Z) (near : point -> point -> bool) (sp : list point),
+  exists clusters rem,
+    cluster_spacepoints_pub (fun p => bins_of 230 (rho p)) near sp = Ok (clusters, rem) /\
+    Permutation (concat clusters ++ rem) sp /\
+    forall c, In c clusters -> (13 <= length c)%nat /\ connected near c.
+Proof. intros rho near sp. apply cluster_pub_lemma. intros p. apply bins_of_nodup_lemma. Qed.
+Print Assumptions C15_cluster_pub_bins.
+
+Theorem C15_cluster_total_bins :
+  forall (theta_bins : N) (rho : point -> N -> Z) (near : point -> point -> bool),
+  forall sp fuel min_points, (1 <= min_points)%nat -> (length sp < fuel)%nat ->
+  exists clusters rem,
+    cluster_spacepoints (fun p => bins_of theta_bins (rho p)) near fuel min_points sp = Ok (clusters, rem).
+Proof. intros n rho near. apply cluster_total_lemma. intros p. apply bins_of_nodup_lemma. Qed.
+Print Assumptions C15_cluster_total_bins.
+
+(* non-vacuity: a sequence that goes negative and comes back (the skipped iterations, the clamp at 0, a
+   descending and an ascending range) *)
+Example C15_get_bins_example :
+  get_bins_res (fun k => nth (N.to_nat k) [2; 0; -3; -1; 1; 4; 4]%Z 0%Z) 6
+  = Ok [(0, 0); (0, 1); (0, 2); (1, 0); (3, 0); (3, 1); (4, 1); (4, 2); (4, 3); (4, 4); (5, 4)].
+Proof. vm_compute. reflexivity. Qed.
+
